@@ -298,6 +298,12 @@ def impl_minimize(case):
 
     kw = {"x0": case["x0"], "bounds": tuple(case["bounds"]) if case["bounds"] else None,
           "learning_rate": case["lr"], "max_iter": case["max_iter"], "tolerance": case["tol"]}
+    if case.get("reuse"):
+        # one options dictionary used for several minimisations in a row: the call under test is the second one with it
+        try:
+            minimize("(x - 1)**2 + 1", "x", optimizer="gradient_descent", optimizer_kwargs=kw)
+        except (ValueError, RuntimeError):
+            pass
     try:
         r = minimize(case["expr"], "x", optimizer="gradient_descent", optimizer_kwargs=kw)
     except ValueError:
@@ -490,6 +496,24 @@ def impl_repro(case):
     g3 = add_aggregated_resources(res1.routine, d)
     out["aggregate_pure"] = pickle.dumps(res1.routine) == snap and d == d_before and repr(d) == d_repr
     out["aggregate_repeatable"] = g1 == g3 and g2 is not None
+    # a live Routine object compiled cold, then again after the process has created far more new symbol names than sympy's
+    # symbol cache holds (1000 by default): what was interned when the object was built is no longer, equal symbols are
+    # not identical any more, and the result must still be the same
+    try:
+        from bartiq import Routine as _Routine
+        from bartiq import sympy_backend as _sb2
+        import sympy as _sympy
+        robj = _Routine.from_qref(doc, _sb2)
+        cold = compile_routine(robj).to_qref().model_dump_json()
+        for i in range(2500):
+            _sympy.Symbol(f"zz_unrelated_{i}")
+        try:
+            later = compile_routine(robj).to_qref().model_dump_json()
+        except BaseException as ex:  # noqa: BLE001
+            later = "exc:" + type(ex).__name__
+        out["same_after_cache_eviction"] = cold == later
+    except BaseException:  # noqa: BLE001
+        out["same_after_cache_eviction"] = True      # (the routine does not compile as an object either: nothing to compare)
     # a dictionary whose first entry mentions several keys defined LATER (their relative order in the expansion comes
     # out of a set of strings), every one of them held by the routine, of different types, all feeding one new name:
     # the exported aggregated document is compared across processes (agg_sha)
@@ -651,7 +675,12 @@ def impl_latex(case):
     from hier import to_qref
     from qref import SchemaV1
 
-    doc = SchemaV1(**to_qref(case["routine"]))
+    if case.get("native"):
+        # integer literals (sizes, counts, values) handed over as native numbers, as a document written in Python or YAML has them
+        from hier import native_numbers
+        doc = SchemaV1(**native_numbers(to_qref(case["routine"])))
+    else:
+        doc = SchemaV1(**to_qref(case["routine"]))
     out = {}
     variants = [("src", doc)]
     if case.get("compiled"):
